@@ -16,6 +16,10 @@ ASSUMPTIONS = ['OS-level read errors are represented by a reader that fails at a
 CMDS = [(['reg'], ()), (['bal'], ()), (['csv', 'log'], ()), (['print'], ()), (['report', 'totals'], ()), (['report', 'quantity'], ()),
         (['csv', 'database'], ()), (['csv', 'database-resolved'], ()), (['report', 'element-total'], ('calories',)),
         (['summary'], ('2021/01/24',)), (['report', 'unresolved'], ()), (['lint'], ('food.yaml',)), (['lint'], ('log.yaml',))]
+# the same commands with switches that route the data through another reporter
+VARIANTS = [(['reg'], (), {'singleElement': 'calories'}), (['reg'], (), {'singleElement': 'calories', 'groupFood': True}), (['reg'], (), {'singleFood': 'a'}), (['reg'], (), {'oldReg': True}),
+            (['reg'], (), {'template': 'left-aligned'}), (['bal'], (), {'collapse': True}), (['bal'], (), {'collapseLast': True}), (['bal'], (), {'singleElement': 'calories'}),
+            (['report', 'quantity'], (), {'desc': True}), (['report', 'element-total'], ('calories',), {'desc': True})]
 DB_ONLY = {'csv database', 'csv database-resolved', 'report element-total', 'lint food.yaml'}
 LOG_ONLY = {'csv log', 'print', 'report quantity', 'lint log.yaml'}
 
@@ -82,16 +86,17 @@ def run(ctx):
             continue
         log = g.log(book=book, exact=True, days=2, max_entries=3, unusual=0.1)
         files = base_files(g, book, log)
-        for path, args in CMDS:
-            kind = ' '.join(path + [a for a in args if path == ['lint']])
-            base = app(path, files, args=args, kind=kind)
+        for path, args, sw in [(p_, a_, {}) for p_, a_ in CMDS] + VARIANTS:
+            kind0 = ' '.join(path + [a for a in args if path == ['lint']])
+            kind = kind0 + (' [' + '+'.join(sw) + ']' if sw else '')
+            base = app(path, files, args=args, s=sw, kind=kind)
             acases.append(base)
-            targets = [b'food.yaml'] if kind in DB_ONLY else [b'log.yaml'] if kind in LOG_ONLY else [b'food.yaml', b'log.yaml']
+            targets = [b'food.yaml'] if kind0 in DB_ONLY else [b'log.yaml'] if kind0 in LOG_ONLY else [b'food.yaml', b'log.yaml']
             for t in targets:
                 n = len(files[t])
-                offs = range(0, n + 1) if ctx.tier == 'thorough' else sorted(set(list(range(0, n + 1, max(1, n // 12))) + [n - 1, n]))
+                offs = range(0, n + 1) if ctx.tier == 'thorough' else sorted(set(list(range(0, n + 1, max(1, n // (12 if not sw else 5)))) + [n - 1, n]))
                 for k in offs:
-                    c = app(path, files, args=args, kind=kind, read_fail={t: k})
+                    c = app(path, files, args=args, s=sw, kind=kind, read_fail={t: k})
                     c.meta.update({'base': base, 'target': t.decode(), 'k': k})
                     acases.append(c)
     impl3, model3 = run_apps(ctx, acases)
@@ -123,11 +128,12 @@ def run(ctx):
             long_line = b'  ' + b'x' * r.choice([65536, 70000, 131072]) + b': 1'
             broken = dict(files)
             broken[t] = b'\n'.join(lines[:at + 1] + [long_line] + lines[at + 1:])
-            for path, args in CMDS + [(['stats'], ())]:
+            for path, args, sw in [(p_, a_, {}) for p_, a_ in CMDS + [(['stats'], ())]] + VARIANTS:
                 kind = ' '.join(path + [a for a in args if path == ['lint']])
                 if (kind in DB_ONLY and t != b'food.yaml') or (kind in LOG_ONLY and t != b'log.yaml'):
                     continue
-                c = app(path, broken, args=args, kind=kind + ' (long line)', disk=True)
+                kind += ' [' + '+'.join(sw) + ']' if sw else ''
+                c = app(path, broken, args=args, s=sw, kind=kind + ' (long line)', disk=True)
                 c.meta.update({'target': t.decode()})
                 dcases.append(c)
     impl4, model4 = run_apps(ctx, dcases)
